@@ -280,6 +280,11 @@ func (ps *pathState) partExcludes(p *Term, c byte) bool {
 		return true
 	}
 	if p.Op == "var" {
+		if o, ok := opaqueReg.Load(p.Name); ok {
+			if _, dec := isDecimalKind(o.(opaqueInfo).kind); dec {
+				return !(c >= '0' && c <= '9') && c != '-'
+			}
+		}
 		if class, ok := ps.alpha[p.Name]; ok {
 			if strings.HasPrefix(class, "^") {
 				return strings.IndexByte(class[1:], c) >= 0
